@@ -7,7 +7,7 @@ import HypatiaProofs.Lemmas.KeywordQuery
 list or without a value, a rejected `str` value, `unindex`, `reset`, and – anywhere –
 `optimize()` and `tree_threshold := n` for any `n`); `table h` is the specification's document
 table, `kwOf (table h) d` the document's current keyword list.  The index *knows* `d` when
-`d` was last indexed without a value or has at least one keyword.  `K` is any keyword type
+`d` was last indexed without a value or has at least one keyword (`Spec.Known`).  `K` is any keyword type
 with decidable equality.  Every statement is for all histories, keywords, lists and docids.
 Property statements only – lemmas live in `Lemmas/Keyword*.lean`.
 -/
@@ -17,30 +17,22 @@ open Hyp Hyp.Keyword.Spec
 
 variable {K : Type} [DecidableEq K]
 
-/-- `d` is known to the index according to the table -/
-def Known (t : Table K) (d : Int) : Prop := AMap.get t d = some none ∨ kwOf t d ≠ []
-
 /-- Refinement: after any history – whatever the thresholds, wherever `optimize()` was called –
 the index, with its posting representation erased, represents the document table. -/
 theorem c02_refinement (h : List (Op K)) : Inv (erase (run h)) (table h) := run_inv h
 
 /-- 'equals k': exactly the documents whose current keyword set contains `k` -/
 theorem c02_eq (h : List (Op K)) (k : K) (d : Int) :
-    d ∈ applyEq (run h) k ↔ k ∈ kwOf (table h) d := by
-  unfold applyEq View.applyEq
-  rw [View.mem_searchAnd (run_viewOK h)]; simp
+    d ∈ applyEq (run h) k ↔ k ∈ kwOf (table h) d := mem_applyEq (run_viewOK h) k d
 
 /-- 'any of K': exactly the documents whose keyword set meets `K` -/
 theorem c02_any (h : List (Op K)) (ks : List K) (d : Int) :
-    d ∈ applyAny (run h) ks ↔ ∃ k ∈ ks, k ∈ kwOf (table h) d := by
-  unfold applyAny View.applyAny
-  exact View.mem_searchOr (run_viewOK h) ks d
+    d ∈ applyAny (run h) ks ↔ ∃ k ∈ ks, k ∈ kwOf (table h) d := mem_applyAny (run_viewOK h) ks d
 
 /-- 'all of K', `K` non-empty: exactly the documents whose keyword set includes `K` -/
 theorem c02_all (h : List (Op K)) (ks : List K) (hne : ks ≠ []) (d : Int) :
     d ∈ applyAll (run h) ks ↔ ∀ k ∈ ks, k ∈ kwOf (table h) d := by
-  unfold applyAll View.applyAll
-  rw [View.mem_searchAnd (run_viewOK h)]; simp [hne]
+  rw [mem_applyAll (run_viewOK h)]; simp [hne]
 
 /-- the empty list matches nothing (in any state) -/
 theorem c02_all_nil (s : State K) : applyAll s [] = [] := by
@@ -51,40 +43,25 @@ theorem c02_any_nil (s : State K) : applyAny s [] = [] := by
 
 /-- the ids the index currently knows -/
 theorem c02_docids (h : List (Op K)) (d : Int) : d ∈ docids (run h) ↔ Known (table h) d := by
-  unfold docids Known
-  rw [View.mem_docids (run_viewOK h), mem_known, isKnown_iff]
+  rw [mem_docids (run_viewOK h), known_iff]
 
 /-- each negation returns the known ids minus the positive result -/
 theorem c02_noteq (h : List (Op K)) (k : K) (d : Int) :
     d ∈ applyNotEq (run h) k ↔ Known (table h) d ∧ k ∉ kwOf (table h) d := by
-  unfold applyNotEq View.applyNotEq
-  rw [View.mem_negate (run_viewOK h), ← c02_docids, ← c02_eq]
-  unfold docids applyEq
-  rw [View.mem_docids (run_viewOK h)]
+  rw [mem_applyNotEq (run_viewOK h), known_iff]
 
 theorem c02_notany (h : List (Op K)) (ks : List K) (d : Int) :
     d ∈ applyNotAny (run h) ks ↔ Known (table h) d ∧ ¬ ∃ k ∈ ks, k ∈ kwOf (table h) d := by
-  unfold applyNotAny View.applyNotAny
-  rw [View.mem_negate (run_viewOK h), ← c02_docids, ← c02_any]
-  unfold docids applyAny
-  rw [View.mem_docids (run_viewOK h)]
+  rw [mem_applyNotAny (run_viewOK h), known_iff]
 
 theorem c02_notall (h : List (Op K)) (ks : List K) (hne : ks ≠ []) (d : Int) :
     d ∈ applyNotAll (run h) ks ↔ Known (table h) d ∧ ¬ ∀ k ∈ ks, k ∈ kwOf (table h) d := by
-  unfold applyNotAll View.applyNotAll
-  rw [View.mem_negate (run_viewOK h), ← c02_docids, ← c02_all h ks hne]
-  unfold docids applyAll
-  rw [View.mem_docids (run_viewOK h)]
+  rw [mem_applyNotAll (run_viewOK h), known_iff]; simp [hne]
 
 /-- 'not all of []' is every known id (as 'all of []' is empty) -/
 theorem c02_notall_nil (h : List (Op K)) (d : Int) :
     d ∈ applyNotAll (run h) [] ↔ Known (table h) d := by
-  unfold applyNotAll View.applyNotAll
-  rw [View.mem_negate (run_viewOK h), ← c02_docids]
-  have : (run h).view.applyAll [] = [] := c02_all_nil (run h)
-  rw [this]
-  unfold docids
-  rw [View.mem_docids (run_viewOK h)]; simp
+  rw [mem_applyNotAll (run_viewOK h), known_iff]; simp
 
 /-- no stale ids: an unindexed document is in no positive answer -/
 theorem c02_no_stale (h : List (Op K)) (d : Int) (k : K) :
@@ -140,24 +117,7 @@ theorem c02_representation_independent (h h' : List (Op K))
 
 /-- the index entry points `applyX` compute the specification's meaning of every query -/
 theorem c02_index_entry (h : List (Op K)) (q : QObj K) (d : Int) :
-    d ∈ QObj.applyIndex (run h) q ↔ d ∈ Spec.sem (table h) q := by
-  have hk : ∀ d, Known (table h) d ↔ d ∈ known (table h) := by
-    intro d; unfold Known; rw [mem_known, isKnown_iff]
-  cases q with
-  | eq k => simp only [QObj.applyIndex, Spec.sem, c02_eq, mem_spec_eq]
-  | noteq k => simp only [QObj.applyIndex, Spec.sem, c02_noteq, mem_spec_neg, mem_spec_eq, hk]
-  | any ks => simp only [QObj.applyIndex, Spec.sem, c02_any, mem_spec_any]
-  | notany ks => simp only [QObj.applyIndex, Spec.sem, c02_notany, mem_spec_neg, mem_spec_any, hk]
-  | all ks =>
-    simp only [QObj.applyIndex, Spec.sem, mem_spec_all]
-    by_cases he : ks = []
-    · subst he; simp [c02_all_nil]
-    · rw [c02_all h ks he]; simp [he]
-  | notall ks =>
-    simp only [QObj.applyIndex, Spec.sem, mem_spec_neg, mem_spec_all]
-    by_cases he : ks = []
-    · subst he; rw [c02_notall_nil, hk]; simp
-    · rw [c02_notall h ks he, hk]; simp [he]
+    d ∈ QObj.applyIndex (run h) q ↔ d ∈ Spec.sem (table h) q := applyIndex_sem (run_viewOK h) q d
 
 /-- Query-object entry point (`index.eq(k).execute()` …): every comparator except `NotAll`
 computes its meaning.  Full statement (all six comparators) fails for `NotAll` – finding D2,
